@@ -1282,6 +1282,18 @@ _ical_push(struct ical_parser_s p[static 1U], const char *buf, size_t bsz)
 	return;
 }
 
+static nummapstr_t
+nms_dup(nummapstr_t x)
+{
+/* tasks own their strings, see free_echs_task() */
+	const char *s;
+
+	if ((s = nummapstr_str(x)) != NULL) {
+		return nummapstr_bang_str(strdup(s));
+	}
+	return x;
+}
+
 static struct ical_vevent_s*
 _ical_proc(struct ical_parser_s p[static 1U])
 {
@@ -1398,10 +1410,10 @@ _ical_proc(struct ical_parser_s p[static 1U])
 			case COMP_VEVT:
 				if (LIKELY(c->fld == FLD_BEGIN)) {
 					/* FINALLY a vevent thing */
-					/* rinse our bucket */
+					/* rinse our bucket, the global task
+					 * properties are filled in at the end
+					 * for what's still unset by then */
 					memset(&p->ve, 0, sizeof(p->ve));
-					/* copy global task properties */
-					p->ve.t = p->globve.t;
 					/* copy global scale */
 					p->ve.cal = p->globve.cal;
 					/* and set state to vevent */
@@ -1467,7 +1479,7 @@ _ical_proc(struct ical_parser_s p[static 1U])
 			 * to other vevents as well */
 			if (!p->ve.t.owner) {
 				/* bang owner */
-				p->ve.t.owner = p->globve.t.owner;
+				p->ve.t.owner = nms_dup(p->globve.t.owner);
 			}
 			if (!p->ve.t.umsk) {
 				/* bang umask */
@@ -1478,8 +1490,12 @@ _ical_proc(struct ical_parser_s p[static 1U])
 				p->ve.t.max_simul = p->globve.t.max_simul;
 			}
 			if (!p->ve.t.run_as.u) {
-				/* bang run_as */
-				p->ve.t.run_as = p->globve.t.run_as;
+				/* bang run_as, uid and gid only, the working
+				 * directory and shell are the event's business */
+				p->ve.t.run_as.u = nms_dup(p->globve.t.run_as.u);
+			}
+			if (!p->ve.t.run_as.g) {
+				p->ve.t.run_as.g = nms_dup(p->globve.t.run_as.g);
 			}
 			/* copy global scale */
 			p->ve.cal = p->globve.cal;
@@ -1583,6 +1599,17 @@ _ical_fini(struct ical_parser_s p[static 1U])
 	}
 	/* free the globve */
 	free_ical_vevent(&p->globve);
+	with (char *s) {
+		if ((s = nummapstr_str(p->globve.t.owner)) != NULL) {
+			free(s);
+		}
+		if ((s = nummapstr_str(p->globve.t.run_as.u)) != NULL) {
+			free(s);
+		}
+		if ((s = nummapstr_str(p->globve.t.run_as.g)) != NULL) {
+			free(s);
+		}
+	}
 	/* dissolve all of it */
 	memset(p, 0, sizeof(*p));
 	return;
